@@ -25,6 +25,13 @@ def encode(ins: Dict[str, Any]) -> List[int]:
         for b in ins["m"]:
             m |= 1 << b
         return [0x71, 0xFC, (~m) & 0xFF]          # AND (FC), n
+    if k == "RAISE":
+        m = 0
+        for b in ins["m"]:
+            m |= 1 << b
+        return [0x79, 0xFC, m & 0xFF]             # OR (FC), n : firmware raises a request itself
+    if k == "JRBACK":
+        return [0x13, ins["v"] & 0xFF]            # JR -n
     if k == "HALT":
         return [0xDE]
     if k == "OFF":
